@@ -436,6 +436,7 @@ def check(model, rep):
     r055(model, rep, ck)
     r056(model, rep, ck)
     r057(model, rep, ck)
+    r0510(model, rep, ck)
     from . import frames
     rep.rule('R05.9', 'kinematics methods of Arm: every relative transform inv(A) @ B / globalToLocal(A, B) is taken between poses expressed in the same frame (world vs base)')
     kin = [fi for name, fi in sorted(ck.arm.methods.items()) if not ('ynamics' in name or name in ('massMatrix', 'coriolisGravity'))]
@@ -445,3 +446,42 @@ def check(model, rep):
     n = closure_obligations(model, rep, 'R05.8', [ck.arm.methods[m] for m in ('FK', 'FKJoint', 'FKLink', 'initialize', 'move') if m in ck.arm.methods],
                             'Arm forward kinematics (FKinSpace and the adjoint used on base changes)')
     rep.floor('R05.8', 'shared primitives under arm FK', len(n), 6)
+
+
+def r0510(model, rep, ck):
+    """Refresh helpers assign what they refresh on every path (a helper that only SETS a derived field when a condition holds
+    leaves the value computed for an earlier configuration in place when the condition stops holding)."""
+    rep.rule('R05.10', 'every `_helper_*` method of Arm that derives a field from other fields assigns that field on every path to its exit '
+                       '(set or reset - never left as computed for an earlier tool / base)')
+    n = 0
+    for name, fi in sorted(ck.arm.methods.items()):
+        if not name.startswith('_helper_'):
+            continue
+        derived = {}
+        for st in walk_own(fi.node):
+            if isinstance(st, ast.Assign):
+                for t in st.targets:
+                    if isinstance(t, ast.Attribute) and isinstance(t.value, ast.Name) and t.value.id == 'self':
+                        reads = {x.attr for x in ast.walk(st.value) if isinstance(x, ast.Attribute) and isinstance(x.value, ast.Name) and x.value.id == 'self'}
+                        if reads - {t.attr}:
+                            derived.setdefault(t.attr, st.lineno)
+        if not derived:
+            continue
+
+        class Must(EventDomain):
+            def on_store(s, target, value, stmt, state):
+                got, consts = state
+                if isinstance(target, ast.Attribute) and isinstance(target.value, ast.Name) and target.value.id == 'self':
+                    got = got | {target.attr}
+                return ((got, consts),)
+        exits = Flow(Must()).run(fi.body(), {(frozenset(), frozenset())})
+        normal = [e for e in exits if e.kind in ('fall', 'return')]
+        for fld, line in sorted(derived.items()):
+            n += 1
+            ok = bool(normal) and all(fld in e.state[0] for e in normal)
+            rep.ob('R05.10', fi, 'self.%s assigned on every path' % fld, ok,
+                   'self.%s is computed from other fields of the arm on one path and left untouched on another: after the tool (or base) changes '
+                   'back, the value derived for the earlier configuration stays (e.g. setArbitraryHome then restoreOriginalEE leaves a spurious '
+                   'tool-to-joint frame in getJointTransforms())' % fld, line=line)
+    rep.count('R05.10 derived fields of refresh helpers', n)
+    rep.floor('R05.10', 'derived fields of refresh helpers', n, 1)
